@@ -287,7 +287,9 @@ def h_threshold_exact(ctx, inp, setting):
     so the comparisons have few feasible outcomes)"""
     lw = ctx.lw
     f = ctx.m.frac
-    nu, purity, ind = {"a": (f(4, 5), 1, f(361, 400)), "b": (1, 1, f(81, 100)), "c": (f(9, 10), f(17, 18), 1)}[setting]
+    nu, purity, ind = {"a": (f(4, 5), 1, f(361, 400)), "b": (1, 1, f(81, 100)), "c": (f(9, 10), f(17, 18), 1),
+                        # brightness only: purity and indistinguishability exactly one (the library's basic path)
+                        "d": (f(7, 10), 1, 1)}[setting]
     tau = ctx.real("tau", 0, 1)
     ctx.assume(tau > 0)
     full = lw.emulator.Source(purity=purity, brightness=nu, indistinguishability=ind)._build_statistics(lw.State(list(inp)))
@@ -342,6 +344,6 @@ def harnesses(tier):
         ("hom", h_hom, [dict(region=r) for r in ({}, {"nu1": True}, {"backend": "slos"})]),
         ("mixing", h_mixing, [dict(which=w) for w in ("two-dist", "bunched-plus-dist", "mix3", "noise")]),
         ("end-to-end", h_end_to_end, e2e, dict(check_timeout_ms=30000, max_paths=2000, max_seconds=300 if tier == "quick" else 1500)),
-        ("threshold-exact", h_threshold_exact, [dict(inp=i, setting=st) for i in ((1,), (1, 1), (2, 0, 1)) for st in ("a", "b", "c")], dict(max_paths=4000, max_seconds=600)),
+        ("threshold-exact", h_threshold_exact, [dict(inp=i, setting=st) for i in ((1,), (1, 1), (2, 0, 1)) for st in ("a", "b", "c", "d")], dict(max_paths=4000, max_seconds=600)),
         ("threshold", h_threshold, thr, dict(max_paths=3000, max_seconds=300 if tier == "quick" else 1500)),
     ]
